@@ -210,7 +210,10 @@ type species struct {
 	reg  interface{}                                    // Register argument on the server: the form the handler returns
 	regC interface{}                                    // Register argument on the client (nil: same as reg)
 	typ  reflect.Type                                   // dynamic type the handler returns
-	idx  int
+	// noReg: the dynamic type is registered nowhere, in any table (it is only a relative of a
+	// registered type), so it must always arrive as the generic error with code 1
+	noReg bool
+	idx   int
 }
 
 // make builds the error the handler returns for message m (codec species carry their own code:
@@ -239,6 +242,8 @@ func init() {
 	speciesList = []species{
 		{name: "errors.New", kind: kPlain, mk: func(_ ec, m string) error { return errors.New(m) }, reg: reflect.New(errorStringT).Interface(), typ: errorStringT},
 		{name: "EV(value)", kind: kPlain, mk: func(_ ec, m string) error { return EV{m} }, reg: new(EV), typ: reflect.TypeOf(EV{})},
+		// *EV is NOT registered anywhere; only its value form EV is (by the species above)
+		{name: "&EV(pointer-to-value-registered)", kind: kPlain, mk: func(_ ec, m string) error { return &EV{m} }, typ: reflect.TypeOf(&EV{}), noReg: true},
 		{name: "*EP(pointer)", kind: kPlain, mk: func(_ ec, m string) error { return &EP{m} }, reg: new(*EP), typ: reflect.TypeOf(&EP{})},
 		{name: "*EM(marshalable)", kind: kMarsh, mk: func(_ ec, m string) error { return &EM{A: len(m) - 1, B: m} }, reg: new(*EM), typ: reflect.TypeOf(&EM{})},
 		{name: "EMFV(value-form,unmarshal-fails)", kind: kMarshFail, mk: func(_ ec, m string) error { return &EMFV{A: len(m) - 1, B: m} }, reg: new(*EMFV), regC: new(EMFV), typ: reflect.TypeOf(&EMFV{})},
@@ -278,11 +283,17 @@ func tables() []table {
 	same := map[jsonrpc.ErrorCode]int{}
 	disj := map[jsonrpc.ErrorCode]int{}
 	cross := map[jsonrpc.ErrorCode]int{}
+	var regd []int // species that have a registration of their own
 	for i := 0; i < n; i++ {
+		if !speciesList[i].noReg {
+			regd = append(regd, i)
+		}
+	}
+	for k, i := range regd {
 		srvAll[i] = sCode(i)
 		same[sCode(i)] = i
 		disj[cCode(i)] = i
-		cross[sCode(i)] = (i + 1) % n
+		cross[sCode(i)] = regd[(k+1)%len(regd)]
 	}
 	return []table{
 		{"none", nil, nil},
@@ -643,7 +654,7 @@ func TestC11(t *testing.T) {
 		"different codes, code registered to another species on the client) x %d error species (errors.New, plain value, plain pointer, marshalable, "+
 		"marshalable with failing UnmarshalJSON in pointer-form and in value-form client registration, codec, codec with failing FromJSONRPCError in "+
 		"pointer-form and in value-form client registration, marshalable with failing MarshalJSON, codec with failing ToJSONRPCError, one struct in "+
-		"value form and in pointer form under two codes, plus a value-form marshalable probe) x 8 messages (empty, ascii, escaping-heavy, U+0001, U+2028, 3-byte, 4-byte, 4 KiB) x "+
+		"value form and in pointer form under two codes, a pointer to a type registered in value form only (itself unregistered), plus a value-form marshalable probe) x 8 messages (empty, ascii, escaping-heavy, U+0001, U+2028, 3-byte, 4-byte, 4 KiB) x "+
 		"{shape error: err; shape (T,error): err, err with non-zero value}, and the nil outcome once per species and shape; one server+client per "+
 		"(table, transport); each call compared with a table-lookup reference model", len(transports), len(speciesList)))
 }
